@@ -511,7 +511,7 @@ func c06Unsub(c *Ctx, v *vocab) {
 						if sel, isSel := key.(*ast.SelectorExpr); isSel {
 							key = sel.X
 						}
-						if rs.Value == nil || h.objOf(key) != h.objOf(rs.Value) {
+						if rs.Value == nil || (h.objOf(key) != h.objOf(rs.Value) && !copyOf(h, t, i, key, h.objOf(rs.Value))) {
 							ok, why, w = false, "the tree key is not the filter of the current request element", t
 						}
 					}
@@ -797,4 +797,23 @@ func c11Replay(c *Ctx, retained, tq *types.Var) {
 		c.judgeLocks(rl, res, guards, nil)
 	}
 
+}
+
+// copyOf: e names a local whose latest assignment before event upto copied src (x := src; … x.Topic).
+func copyOf(h *Interp, t *Trace, upto int, e ast.Expr, src types.Object) bool {
+	id, ok := ast.Unparen(e).(*ast.Ident)
+	if !ok || src == nil {
+		return false
+	}
+	lo := h.rawObjOf(id)
+	if lo == nil {
+		return false
+	}
+	res := false
+	for _, p := range t.Ev[:upto] {
+		if p.Kind == EvAssign && p.LObj == lo {
+			res = evRHSObj(h, p) == src
+		}
+	}
+	return res
 }
